@@ -41,7 +41,12 @@ example : ∃ g, (volOf (finalDisk (formatted 10) [.put exF exTime, .lock (str "
       rcases hop with rfl | rfl | rfl <;>
         exact ⟨rootPath_simple _ _ (by decide) (by decide) (by decide),
           fun p t a h => (by cases h),
-          fun f t h => (by cases h <;> exact exF_args)⟩)
+          fun f t h => (by cases h <;> exact exF_args),
+          fun p t h => (by cases h)⟩)
+    (renFiles_of_no_rename _ _ _ (by
+      intro op hop p n
+      simp only [List.mem_cons, List.not_mem_nil, or_false] at hop
+      rcases hop with rfl | rfl | rfl <;> intro h <;> cases h))
     (by decide +kernel)
     (by
       intro op hop
